@@ -376,6 +376,7 @@ class MergeData(Contract):
     lenient = True
     loops = {1: LoopSpec(_md_inv, _md_havoc, "for-input")}
     has_native = True
+    native_shards = 4
     max_paths = 20000
     bounded_scope = "inputs holding numeric data associated with the object as a whole (1 or 3 values, on either or both inputs); one input holding the same data name and type twice (first set with 0-4 no-data entries, float and integer); 2-3 point clouds / curves with 0-2 float data each (names shared or not, entity types shared between differently named data or not, vertex or cell association, inputs without data in any position; about half of the cases on a file, re-opened and compared again); deductive part: any number of inputs, each with 0-2 children, label table abstracted to 0-1 earlier label"
 
